@@ -112,6 +112,10 @@ func c13GenCase(r *rand.Rand, flaky bool) ([]c13Input, error) {
 			c13Tag(&x, j, i)
 			in.recs[i] = x
 		}
+		if n > 0 && r.Intn(6) == 0 {
+			// an input whose first record was stamped before 1970: its CSV line starts with '-'
+			in.recs[0].Timestamp = time.Unix(-1-r.Int63n(2_000_000_000), r.Int63n(1_000_000_000)).UTC()
+		}
 		if flaky && n > 0 && r.Intn(3) > 0 {
 			m := 1 + r.Intn(3)
 			seen := map[int]bool{}
@@ -139,7 +143,7 @@ func c13Open(in *c13Input) (vegeta.Decoder, string) {
 	if in.Auto {
 		var pan any
 		if dec, pan = codecSafeDecoderFor(rd); pan != nil || dec == nil {
-			return nil, fmt.Sprintf("DecoderFor gave no decoder for a valid %s stream (C08's business): %v", in.Codec, pan)
+			return nil, fmt.Sprintf("no-decoder: DecoderFor gave no decoder for a valid %s stream of %d records: %v", in.Codec, len(in.recs), pan)
 		}
 	} else {
 		dec = codecNewDecoder(in.Codec, rd)
@@ -208,6 +212,11 @@ func c13RunRR(run *ev.Run, cc codecCounts, ins []c13Input) {
 	decs := make([]vegeta.Decoder, len(ins))
 	for j := range ins {
 		d, msg := c13Open(&ins[j])
+		if strings.HasPrefix(msg, "no-decoder: ") {
+			// an input whose encoding is not recognised contributes none of its records
+			viol("input-not-readable", fmt.Sprintf("input %d: %s", j, strings.TrimPrefix(msg, "no-decoder: ")), nil)
+			return
+		}
 		if msg != "" {
 			run.Inconclusive("C13 could not open an input: " + msg)
 			return
